@@ -16,9 +16,11 @@ import (
 	"net"
 	"net/http"
 	"net/http/cookiejar"
+	"net/http/httptrace"
 	"net/url"
 	"os"
 	"runtime"
+	"sort"
 	"strings"
 	"sync"
 	"time"
@@ -55,6 +57,7 @@ type DCfg struct {
 	LoopPort int      `json:"loopport"` // port of that listener
 	NoTLSCfg bool     `json:"notlscfg"` // leave Dialer.TLSClientConfig nil
 	RBuf     int      `json:"rbuf"`     // Dialer.ReadBufferSize
+	Trace    bool     `json:"trace"`    // every DialContext call carries an httptrace.ClientTrace with all the hooks the Dialer knows
 }
 
 // DDial is one DialContext call.
@@ -520,6 +523,21 @@ func (pr *progRun) doDial(i int, d *DDial) (evs []Ev, nops int, kinds []string, 
 	if cancel != nil {
 		defer cancel()
 	}
+	// httptrace hooks (facts: how often each was called); installing them must not change any outcome
+	var tmu sync.Mutex
+	thooks := map[string]int{}
+	if cfg.Trace {
+		note := func(k string) { tmu.Lock(); thooks[k]++; tmu.Unlock() }
+		ctx = httptrace.WithClientTrace(ctx, &httptrace.ClientTrace{
+			GetConn:              func(string) { note("getconn") },
+			GotConn:              func(httptrace.GotConnInfo) { note("gotconn") },
+			GotFirstResponseByte: func() { note("firstbyte") },
+			TLSHandshakeStart:    func() { note("tlsstart") },
+			TLSHandshakeDone:     func(tls.ConnectionState, error) { note("tlsdone") },
+			WroteRequest:         func(httptrace.WroteRequestInfo) { note("wroterequest") },
+			WroteHeaders:         func() { note("wroteheaders") },
+		})
+	}
 	if cfg.Jar && pr.dialer.Jar != nil {
 		if u, err := url.Parse(d.URL); err == nil && u.Host != "" {
 			hu := &url.URL{Scheme: "http", Host: u.Host, Path: "/"}
@@ -681,7 +699,16 @@ func (pr *progRun) doDial(i int, d *DDial) (evs []Ev, nops int, kinds []string, 
 		return []Ev{{"e": "HANG", "i": i, "reading": rxHang}}, nops, kinds, true
 	}
 	evs = append(evs, Ev{"e": "Dial", "i": i + 1, "d": d.Abs, "short": stalling, "hooks": hooks, "ops": ops, "closed": closed, "peer": layers, "res": res,
-		"rx": rx, "plook": plook, "nsegs": nsegs})
+		"rx": rx, "plook": plook, "nsegs": nsegs, "thooks": func() string {
+			tmu.Lock()
+			defer tmu.Unlock()
+			ks := []string{}
+			for k, v := range thooks {
+				ks = append(ks, fmt.Sprintf("%s:%d", k, v))
+			}
+			sort.Strings(ks)
+			return strings.Join(ks, ",")
+		}()})
 	if delta > 8*uint64(fed)+(6<<20) {
 		evs = append(evs, Ev{"e": "ALLOC", "delta": delta, "fed": fed})
 	}
